@@ -693,3 +693,57 @@ func (e *Engine) smLookup(m *mapV, k value) (value, *Term, int) {
 
 var _ = fmt.Sprint
 var _ = sort.Strings
+
+// flag: package-level flag variables are plain cells holding their default
+// value (flag.Parse is never run; harnesses assign the cells directly).
+func (e *Engine) setupFlag() {
+	mk := func(e *Engine, fr *frame, a []value) value {
+		p := new(value)
+		*p = copyVal(a[1])
+		return p
+	}
+	for _, n := range []string{"String", "Bool", "Int", "Int64", "Uint", "Uint64", "Float64", "Duration"} {
+		e.ext["flag."+n] = mk
+	}
+	e.ext["flag.Parse"] = func(e *Engine, fr *frame, a []value) value { return nil }
+}
+
+// sort.Slice / sort.SliceStable use reflection; modelled as an insertion sort
+// that calls the real less function (stable, so it serves both).
+func (e *Engine) setupSort() {
+	sortSlice := func(e *Engine, fr *frame, a []value) value {
+		sl, ok := a[0].(iface).v.(*sliceV)
+		if !ok || sl == nil || sl.len < 2 {
+			return nil
+		}
+		arr := *sl.arr
+		less := func(i, j int) bool {
+			r := e.callAny(nil, a[1], []value{BV(64, uint64(i)), BV(64, uint64(j))}, 0)
+			return e.decide(r.(*Term))
+		}
+		for i := 1; i < sl.len; i++ {
+			for j := i; j > 0 && less(j, j-1); j-- {
+				arr[sl.off+j], arr[sl.off+j-1] = arr[sl.off+j-1], arr[sl.off+j]
+			}
+		}
+		return nil
+	}
+	// M-uuid: uuid.New returns a fresh value distinct from all earlier ones
+	e.ext["github.com/google/uuid.New"] = func(e *Engine, fr *frame, a []value) value {
+		n, _ := e.objs["uuidseq"].(int)
+		n++
+		e.objs["uuidseq"] = n
+		out := make(arrayV, 16)
+		for i := range out {
+			out[i] = BV(8, 0)
+		}
+		out[0] = BV(8, 0x5e)
+		out[6] = BV(8, 0x40)
+		out[8] = BV(8, 0x80)
+		out[14] = BV(8, uint64(n>>8))
+		out[15] = BV(8, uint64(n))
+		return out
+	}
+	e.ext["sort.Slice"] = sortSlice
+	e.ext["sort.SliceStable"] = sortSlice
+}
